@@ -330,6 +330,8 @@ Definition write_rfc3339 (w : bytes) (dt : ndt) (off : Z) (secform : Z) (use_z :
 Definition to_rfc3339 (a : dtz) : R bytes :=
   let* naive := overflowing_naive_local a in
   unwrap_r (write_rfc3339 [] naive (dz_off a) 4 false).
+(* repaired (fixes/C15-rfc3339-opts-local.diff): reads the wall clock with overflowing_naive_local(), as
+   to_rfc3339 does; the original used the panicking naive_local() *)
 Definition to_rfc3339_opts (a : dtz) (secform : Z) (use_z : bool) : R bytes :=
-  let* naive := naive_local a in
+  let* naive := overflowing_naive_local a in
   unwrap_r (write_rfc3339 [] naive (dz_off a) secform use_z).
